@@ -219,6 +219,7 @@ func (f *xmlField) written(parentNS string) xmlName {
 type rfcChild struct {
 	Name xmlName
 	Card byte // '1' exactly one, '?' optional, '*' any number, '+' one or more
+	Rank int  // position in the content model's sequence (alternatives of a choice share one)
 }
 
 type rfcElem struct {
@@ -242,7 +243,28 @@ const (
 func el(ns, local, children, attrs, src string, flags ...string) rfcElem {
 	e := rfcElem{Name: xmlName{ns, local}, Src: src}
 	pre := map[string]string{"D": nsDAV, "C": nsCalDAV, "A": nsCardDAV}
+	group := 0
 	for _, c := range strings.Fields(children) {
+		// "(x|y|z)" : alternatives of one choice share an order rank
+		inGroup := false
+		if strings.HasPrefix(c, "(") {
+			group++
+			for _, alt := range strings.Split(strings.Trim(c, "()"), "|") {
+				card := byte('1')
+				switch alt[len(alt)-1] {
+				case '?', '*', '+':
+					card = alt[len(alt)-1]
+					alt = alt[:len(alt)-1]
+				}
+				i := strings.Index(alt, ":")
+				e.Children = append(e.Children, rfcChild{xmlName{pre[alt[:i]], alt[i+1:]}, card, group})
+			}
+			inGroup = true
+		}
+		if inGroup {
+			continue
+		}
+		group++
 		card := byte('1')
 		switch c[len(c)-1] {
 		case '?', '*', '+':
@@ -250,7 +272,7 @@ func el(ns, local, children, attrs, src string, flags ...string) rfcElem {
 			c = c[:len(c)-1]
 		}
 		i := strings.Index(c, ":")
-		e.Children = append(e.Children, rfcChild{xmlName{pre[c[:i]], c[i+1:]}, card})
+		e.Children = append(e.Children, rfcChild{xmlName{pre[c[:i]], c[i+1:]}, card, group})
 	}
 	for _, a := range strings.Fields(attrs) {
 		if strings.HasSuffix(a, "!") {
@@ -279,14 +301,14 @@ var rfcTable = func() map[xmlName][]rfcElem {
 	list := []rfcElem{
 		// RFC 4918
 		el(nsDAV, "multistatus", "D:response* D:responsedescription? D:sync-token?", "", "RFC 4918 §14.16, RFC 6578 §6.4"),
-		el(nsDAV, "response", "D:href+ D:status? D:propstat* D:error? D:responsedescription? D:location?", "", "RFC 4918 §14.24"),
+		el(nsDAV, "response", "D:href+ (D:status?|D:propstat*) D:error? D:responsedescription? D:location?", "", "RFC 4918 §14.24"),
 		el(nsDAV, "propstat", "D:prop D:status D:error? D:responsedescription?", "", "RFC 4918 §14.22"),
 		el(nsDAV, "prop", "", "", "RFC 4918 §14.18", "any"),
 		el(nsDAV, "error", "", "", "RFC 4918 §14.5", "any"),
 		el(nsDAV, "location", "D:href", "", "RFC 4918 §14.9"),
-		el(nsDAV, "propfind", "D:propname? D:allprop? D:include? D:prop?", "", "RFC 4918 §14.20"),
+		el(nsDAV, "propfind", "(D:propname?|D:allprop?|D:prop?) D:include?", "", "RFC 4918 §14.20"),
 		el(nsDAV, "include", "", "", "RFC 4918 §14.8", "any"),
-		el(nsDAV, "propertyupdate", "D:remove* D:set*", "", "RFC 4918 §14.19"),
+		el(nsDAV, "propertyupdate", "(D:remove*|D:set*)", "", "RFC 4918 §14.19"),
 		el(nsDAV, "remove", "D:prop", "", "RFC 4918 §14.23"),
 		el(nsDAV, "set", "D:prop", "", "RFC 4918 §14.26"),
 		el(nsDAV, "resourcetype", "", "", "RFC 4918 §15.9", "any"),
@@ -296,7 +318,7 @@ var rfcTable = func() map[xmlName][]rfcElem {
 		el(nsDAV, "getetag", "", "", "RFC 4918 §15.6", "text"),
 		el(nsDAV, "displayname", "", "", "RFC 4918 §15.2", "text"),
 		// RFC 5397, RFC 3744
-		el(nsDAV, "current-user-principal", "D:unauthenticated? D:href?", "", "RFC 5397 §3"),
+		el(nsDAV, "current-user-principal", "(D:unauthenticated?|D:href?)", "", "RFC 5397 §3"),
 		el(nsDAV, "alternate-URI-set", "D:href*", "", "RFC 3744 §4.1"),
 		el(nsDAV, "principal-URL", "D:href", "", "RFC 3744 §4.2"),
 		el(nsDAV, "group-membership", "D:href*", "", "RFC 3744 §4.4"),
@@ -311,18 +333,18 @@ var rfcTable = func() map[xmlName][]rfcElem {
 		el(nsCalDAV, "supported-calendar-component-set", "C:comp+", "", "RFC 4791 §5.2.3"),
 		el(nsCalDAV, "supported-calendar-data", "C:calendar-data+", "", "RFC 4791 §5.2.4"),
 		el(nsCalDAV, "max-resource-size", "", "", "RFC 4791 §5.2.5", "text"),
-		el(nsCalDAV, "calendar-query", "D:allprop? D:propname? D:prop? C:filter C:timezone?", "", "RFC 4791 §9.5"),
-		el(nsCalDAV, "calendar-multiget", "D:allprop? D:propname? D:prop? D:href+", "", "RFC 4791 §9.10"),
+		el(nsCalDAV, "calendar-query", "(D:allprop?|D:propname?|D:prop?) C:filter C:timezone?", "", "RFC 4791 §9.5"),
+		el(nsCalDAV, "calendar-multiget", "(D:allprop?|D:propname?|D:prop?) D:href+", "", "RFC 4791 §9.10"),
 		el(nsCalDAV, "filter", "C:comp-filter", "", "RFC 4791 §9.7"),
-		el(nsCalDAV, "comp-filter", "C:is-not-defined? C:time-range? C:prop-filter* C:comp-filter*", "name!", "RFC 4791 §9.7.1"),
-		el(nsCalDAV, "prop-filter", "C:is-not-defined? C:time-range? C:text-match? C:param-filter*", "name!", "RFC 4791 §9.7.2"),
-		el(nsCalDAV, "param-filter", "C:is-not-defined? C:text-match?", "name!", "RFC 4791 §9.7.3"),
+		el(nsCalDAV, "comp-filter", "(C:is-not-defined?|C:time-range?) C:prop-filter* C:comp-filter*", "name!", "RFC 4791 §9.7.1"),
+		el(nsCalDAV, "prop-filter", "(C:is-not-defined?|C:time-range?|C:text-match?) C:param-filter*", "name!", "RFC 4791 §9.7.2"),
+		el(nsCalDAV, "param-filter", "(C:is-not-defined?|C:text-match?)", "name!", "RFC 4791 §9.7.3"),
 		el(nsCalDAV, "text-match", "", "collation negate-condition", "RFC 4791 §9.7.5", "text"),
 		el(nsCalDAV, "time-range", "", "start end", "RFC 4791 §9.9"),
 		// calendar-data has three forms (§9.6): supported-data (empty, attrs),
 		// request (comp/expand/...), response (text).
-		el(nsCalDAV, "calendar-data", "C:comp? C:expand? C:limit-recurrence-set? C:limit-freebusy-set?", "content-type version", "RFC 4791 §9.6", "text"),
-		el(nsCalDAV, "comp", "C:allprop? C:prop* C:allcomp? C:comp*", "name!", "RFC 4791 §9.6.1"),
+		el(nsCalDAV, "calendar-data", "C:comp? (C:expand?|C:limit-recurrence-set?) C:limit-freebusy-set?", "content-type version", "RFC 4791 §9.6", "text"),
+		el(nsCalDAV, "comp", "(C:allprop?|C:prop*) (C:allcomp?|C:comp*)", "name!", "RFC 4791 §9.6.1"),
 		el(nsCalDAV, "prop", "", "name! novalue", "RFC 4791 §9.6.4"),
 		el(nsCalDAV, "expand", "", "start! end!", "RFC 4791 §9.6.5"),
 		// RFC 6352
@@ -331,14 +353,14 @@ var rfcTable = func() map[xmlName][]rfcElem {
 		el(nsCardDAV, "supported-address-data", "A:address-data-type+", "", "RFC 6352 §6.2.2"),
 		el(nsCardDAV, "address-data-type", "", "content-type version", "RFC 6352 §6.2.2"),
 		el(nsCardDAV, "max-resource-size", "", "", "RFC 6352 §6.2.3", "text"),
-		el(nsCardDAV, "addressbook-query", "D:allprop? D:propname? D:prop? A:filter A:limit?", "", "RFC 6352 §10.3"),
-		el(nsCardDAV, "addressbook-multiget", "D:allprop? D:propname? D:prop? D:href+", "", "RFC 6352 §8.7 / §10.7"),
+		el(nsCardDAV, "addressbook-query", "(D:allprop?|D:propname?|D:prop?) A:filter A:limit?", "", "RFC 6352 §10.3"),
+		el(nsCardDAV, "addressbook-multiget", "(D:allprop?|D:propname?|D:prop?) D:href+", "", "RFC 6352 §8.7 / §10.7"),
 		el(nsCardDAV, "filter", "A:prop-filter*", "test", "RFC 6352 §10.5"),
-		el(nsCardDAV, "prop-filter", "A:is-not-defined? A:text-match* A:param-filter*", "name! test", "RFC 6352 §10.5.1"),
-		el(nsCardDAV, "param-filter", "A:is-not-defined? A:text-match?", "name!", "RFC 6352 §10.5.2"),
+		el(nsCardDAV, "prop-filter", "(A:is-not-defined?|A:text-match*) A:param-filter*", "name! test", "RFC 6352 §10.5.1"),
+		el(nsCardDAV, "param-filter", "(A:is-not-defined?|A:text-match?)", "name!", "RFC 6352 §10.5.2"),
 		el(nsCardDAV, "text-match", "", "collation negate-condition match-type", "RFC 6352 §10.5.4", "text"),
 		el(nsCardDAV, "limit", "A:nresults", "", "RFC 6352 §10.6"),
-		el(nsCardDAV, "address-data", "A:allprop? A:prop*", "content-type version", "RFC 6352 §10.4", "text"),
+		el(nsCardDAV, "address-data", "(A:allprop?|A:prop*)", "content-type version", "RFC 6352 §10.4", "text"),
 		el(nsCardDAV, "prop", "", "name! novalue", "RFC 6352 §10.4.2"),
 	}
 	m := map[xmlName][]rfcElem{}
@@ -500,6 +522,40 @@ func checkSchema(p *Program, r *RuleResult, keep func(*xmlStruct) bool, strictCa
 					} else {
 						r.Note("observation (not a violation of the property): %s holds one value although %s allows <%s> to repeat in <%s>; the public API has a single value there", f.Label, spec.Src, w, xs.Name)
 					}
+				}
+			}
+		}
+		// child order: encoding/xml writes children in field order; the RFC
+		// content models are sequences
+		if !spec.Any {
+			rank := map[xmlName]int{}
+			for _, c := range spec.Children {
+				rank[c.Name] = c.Rank
+			}
+			last, lastName := -1, ""
+			for i := range xs.Fields {
+				f := &xs.Fields[i]
+				if f.Attr || f.Chardata || f.Any || f.InnerXML || f.Comment {
+					continue
+				}
+				var w xmlName
+				if len(f.Parents) > 0 {
+					w = xmlName{xs.Name.Space, f.Parents[0]}
+				} else {
+					w = f.written(xs.Name.Space)
+				}
+				rk, known := rank[w]
+				if !known {
+					continue
+				}
+				r.Role("child-order")
+				ok := rk >= last
+				r.Ob(ok)
+				if !ok {
+					r.Violation("order|"+xs.Name.String()+"|"+w.String(), pos, fmt.Sprintf("%s is written after <%s> although the content model of <%s> in %s puts <%s> first (%s): a reader that validates the RFC's sequence rejects the document", f.Label, lastName, xs.Name, spec.Src, w, childNames(spec)), nil)
+				}
+				if rk > last {
+					last, lastName = rk, w.String()
 				}
 			}
 		}
